@@ -619,7 +619,7 @@ def run(ctx):
     if not ok_lib:
         ctx.broken.append("library does not build from the working tree: " + liblog[-500:])
         return ctx.finish(LEVEL)
-    proved = ctx.prove(["Properties_C12.v"], [])
+    proved = ctx.prove(["Properties_C12.v"], ["GenNodelist"])
     model, ok_m, mlog = core.build_model(FAMILY)
     if not ok_m:
         ctx.broken.append("model extraction/build failed: " + mlog[-500:])
